@@ -2,6 +2,7 @@ package props
 
 import (
 	"fmt"
+	"sync"
 
 	"github.com/virus-evolution/gofasta/pkg/alphabet"
 	"github.com/virus-evolution/gofasta/pkg/encoding"
@@ -22,6 +23,7 @@ func init() {
 			"distinct non-trivial = distinct codons and characters checked (every one is a distinct case)",
 		Assumptions: []string{"the 64-letter NCBI translation table string and the IUPAC set table in the harness are correct"},
 		Exhaustive:  true,
+		Race:        true,
 		MinNontriv:  3375 + 32,
 		Cases: func(tier string) int {
 			if tier == "thorough" {
@@ -33,8 +35,50 @@ func init() {
 	})
 }
 
+// c17ConcurrentBurst translates from several goroutines at once. The first case of every
+// worker process is also the first use of the tables in that process, so lazily initialised
+// shared state is exercised (and the workers are race-built).
+func c17ConcurrentBurst(res *fw.Result, idx int) {
+	var wg sync.WaitGroup
+	errs := make(chan string, 64)
+	start := make(chan struct{})
+	for g := 0; g < 8; g++ {
+		wg.Add(1)
+		go func(g int) {
+			defer wg.Done()
+			<-start
+			for k := 0; k < 40; k++ {
+				a, b, d := iupac15[(g+k)%15], iupac15[(3*k+idx)%15], iupac15[(7*k+g)%15]
+				codon := string([]byte{a, b, d})
+				want, _ := model.TranslateAmbig(codon)
+				if t, err := alphabet.Translate(codon, false); err != nil || t != string(want) {
+					errs <- fmt.Sprintf("concurrent Translate(%s,false) = %q,%v; expected %c", codon, t, err, want)
+					return
+				}
+				got, ok := alphabet.MakeCodonDict()[codon]
+				if (want == 'X') == ok || (ok && got != string(want)) {
+					errs <- fmt.Sprintf("concurrent MakeCodonDict()[%s] = %q,%v; expected %c", codon, got, ok, want)
+					return
+				}
+				if alphabet.Complement(string(a)) == "" {
+					errs <- "empty complement"
+				}
+			}
+		}(g)
+	}
+	close(start)
+	wg.Wait()
+	close(errs)
+	for e := range errs {
+		res.Fail("concurrent-use", e, nil, nil)
+	}
+	res.Evals += 8 * 40
+	res.Count("concurrent_bursts", 1)
+}
+
 func runC17(c *fw.Ctx, idx int) fw.Result {
 	var res fw.Result
+	c17ConcurrentBurst(&res, idx)
 	switch {
 	case idx < 15:
 		// all codons starting with iupac15[idx]
